@@ -460,6 +460,27 @@ func (f *TF) Eq(a, b *Term) *Term {
 		if oka && okb && la != lb {
 			return f.Bool(false)
 		}
+		// push equality with a constant through ite
+		if b.Op == "ite" && a.Op == "sconst" {
+			a, b = b, a
+		}
+		if a.Op == "ite" && b.Op == "sconst" {
+			return f.Ite(a.Args[0], f.Eq(a.Args[1], b), f.Eq(a.Args[2], b))
+		}
+		// decimal rendering of a non-negative int against a constant
+		if b.Op == "fromint" && a.Op == "sconst" {
+			a, b = b, a
+		}
+		if a.Op == "fromint" && b.Op == "sconst" {
+			if b.S == "" {
+				return f.Lt(a.Args[0], f.Int(0))
+			}
+			k, ok := new(big.Int).SetString(b.S, 10)
+			if !ok || k.Sign() < 0 || k.String() != b.S {
+				return f.Bool(false)
+			}
+			return f.Eq(a.Args[0], f.IntB(k))
+		}
 		if ha, ra, hb, rb, kind := sameWidthHeads(f, a, b); kind != "" && (a.Op == "concat" || b.Op == "concat") {
 			switch kind {
 			case "same":
@@ -474,9 +495,7 @@ func (f *TF) Eq(a, b *Term) *Term {
 				if ha.S[:n] != hb.S[:n] {
 					return f.Bool(false)
 				}
-				if len(ha.S) == len(hb.S) {
-					return f.Eq(ra, rb)
-				}
+				return f.Eq(f.Concat(f.Str(ha.S[n:]), ra), f.Concat(f.Str(hb.S[n:]), rb))
 			}
 		}
 	}
